@@ -589,3 +589,45 @@ func vNthSiblingIndex() (int, []string) {
 //@   nopanic
 //@   requires n != nil
 //@   ensures result == (n.Type == html.ElementNode && ((n.DataAtom != 0 && n.DataAtom == t.tag) || n.Data == t.tagS))
+
+// HTML "pseudo-classes" (whatwg §4.16.3): :link is an a / area / link element with an href; :enabled and
+// :disabled partition the form controls by their disabled attribute and a disabled ancestor fieldset;
+// links are :enabled when they have an href and never :disabled.
+//@ func hasAttr
+//@   props C05
+//@   pure refs
+//@ func inDisabledFieldset
+//@   props C05
+//@   pure refs
+//@ func (linkPseudoClassSelector).Match
+//@   props C05
+//@   nopanic
+//@   requires n != nil
+//@   ensures result == ((n.DataAtom == atom.A || n.DataAtom == atom.Area || n.DataAtom == atom.Link) && hasAttr(n, "href"))
+//@ func (enabledPseudoClassSelector).Match
+//@   props C05
+//@   nopanic
+//@   requires n != nil
+//@   let isLink = n.DataAtom == atom.A || n.DataAtom == atom.Area || n.DataAtom == atom.Link
+//@   let isGroup = n.DataAtom == atom.Optgroup || n.DataAtom == atom.Menuitem || n.DataAtom == atom.Fieldset
+//@   let isControl = n.DataAtom == atom.Button || n.DataAtom == atom.Input || n.DataAtom == atom.Select || n.DataAtom == atom.Textarea || n.DataAtom == atom.Option
+//@   ensures n.Type != html.ElementNode ==> !result
+//@   ensures n.Type == html.ElementNode && isLink ==> result == hasAttr(n, "href")
+//@   ensures n.Type == html.ElementNode && isGroup ==> result == !hasAttr(n, "disabled")
+//@   ensures n.Type == html.ElementNode && isControl ==> result == (!hasAttr(n, "disabled") && !inDisabledFieldset(n))
+//@   ensures n.Type == html.ElementNode && !isLink && !isGroup && !isControl ==> !result
+//@ func (disabledPseudoClassSelector).Match
+//@   props C05
+//@   nopanic
+//@   requires n != nil
+//@   let isGroup = n.DataAtom == atom.Optgroup || n.DataAtom == atom.Menuitem || n.DataAtom == atom.Fieldset
+//@   let isControl = n.DataAtom == atom.Button || n.DataAtom == atom.Input || n.DataAtom == atom.Select || n.DataAtom == atom.Textarea || n.DataAtom == atom.Option
+//@   ensures n.Type != html.ElementNode ==> !result
+//@   ensures n.Type == html.ElementNode && isGroup ==> result == hasAttr(n, "disabled")
+//@   ensures n.Type == html.ElementNode && isControl ==> result == (hasAttr(n, "disabled") || inDisabledFieldset(n))
+//@   ensures n.Type == html.ElementNode && !isGroup && !isControl ==> !result
+//@ func (inputPseudoClassSelector).Match
+//@   props C05
+//@   nopanic
+//@   requires n != nil
+//@   ensures result == (n.Type == html.ElementNode && (n.Data == "input" || n.Data == "select" || n.Data == "textarea" || n.Data == "button"))
